@@ -176,12 +176,13 @@ def run_free(ctx, runs):
 
 
 def models(ctx):
-    cfg = "MC_MPMC_full.cfg" if ctx.quick else "MC_MPMC_thorough.cfg"
-    r = tlc.check("MC_MPMC.tla", cfg, workers=8, timeout=3000, heap="12g")
-    if not r["ok"]:
-        raise core.Infra("protocol model violates %s: the model of the queue is wrong (or the protocol is)" % r["violated"])
-    ctx.add_model(r, "MC_MPMC.tla", cfg, ["PoppedExactlyOnce", "TicketOrder", "EmptyOnlyIfHeadUnpublished",
-                                          "SubQueueNonEmptyAtPop", "SlotExclusive"])
+    # thorough adds 4 sub-queues and 3 producers (3 producers x 2 pushes exceeds 7e7 states: left to simulation)
+    for cfg in ["MC_MPMC_full.cfg"] + ([] if ctx.quick else ["MC_MPMC_nq4.cfg", "MC_MPMC_3prod.cfg"]):
+        r = tlc.check("MC_MPMC.tla", cfg, workers=8, timeout=3000, heap="12g")
+        if not r["ok"]:
+            raise core.Infra("protocol model violates %s: the model of the queue is wrong (or the protocol is)" % r["violated"])
+        ctx.add_model(r, "MC_MPMC.tla", cfg, ["PoppedExactlyOnce", "TicketOrder", "EmptyOnlyIfHeadUnpublished",
+                                              "SubQueueNonEmptyAtPop", "SlotExclusive"])
     ctx.exhaustive = True
 
     def dev(d):
